@@ -300,6 +300,24 @@ theorem congr4_one : congr4 (fun i j => if i = j then (1 : Blk n) else 0) = (Ω4
 
 end symplectic
 
+/-! ### the stepping loops feed the step function faithfully -/
+
+/-- what a faithful loop over a 4-node grid does: step k (1-based) receives exactly the 12 extended-state slots the previous
+step produced (the first one `(Q,P,Q,P)` of the initial state), uses the k-th grid spacing both for the step and for the
+coupling constant, keeps the order, and output row k is the `(Q,P)` part of step k's result. -/
+def faithfulInputs : List (List Nat) :=
+  [[0, 1, 2, 3, 4, 5, 0, 1, 2, 3, 4, 5], (List.range 12).map (· + 12), (List.range 12).map (· + 24)]
+def faithfulRows : List (List Nat) :=
+  [List.range 6, (List.range 6).map (· + 12), (List.range 6).map (· + 24), (List.range 6).map (· + 36)]
+
+/-- **driver_wiring**: both `_integrate_symplectic` and the event-enabled `_integrate_symplectic_until_event` (traced on a
+non-uniform grid with the step function and the omega heuristic rebound to recorders) are that faithful loop: no slot of
+the extended state is touched between steps, omega is computed from the current step size. -/
+theorem driver_wiring :
+    driver_plain_inputs = faithfulInputs ∧ driver_plain_dt = [(0, 0, 4), (1, 1, 4), (2, 2, 4)] ∧ driver_plain_rows = faithfulRows ∧
+    driver_event_inputs = faithfulInputs ∧ driver_event_dt = [(0, 0, 4), (1, 1, 4), (2, 2, 4)] ∧ driver_event_rows = faithfulRows := by
+  decide
+
 /-! ### non-vacuity -/
 example : (shearA (V := ℝ) (fun q y => q + y) (fun q y => q * y) (1/2) ⟨1, 2, 3, 4⟩).P = 2 - (1/2) * (1 + 4) := by
   simp [shearA]
